@@ -321,6 +321,48 @@ Section Geom.
 
   Definition lj_score (st : ljstate) : option T :=
     Some (- lj_sum st / nofZ (Z.of_nat (length (l_syms st)))).
+
+  (* ------------------------------------------------------------------ *)
+  (* the shape constructors (src/shape/*.rs); fsin / fcos are libm's sin / cos *)
+
+  Variable fsin fcos : T -> T.
+
+  (* LineShape::from_radial: edge `index` joins point `index` to the next point (cyclically); the end's angle
+     is computed as angle + dtheta, the next edge's start as (index + 1) * dtheta *)
+  Definition radial_edge (dtheta : T) (index : nat) (r1 r2 : T) : seg :=
+    let angle := nofZ (Z.of_nat index) * dtheta in
+    mkSeg (r1 * fsin angle) (r1 * fcos angle) (r2 * fsin (angle + dtheta)) (r2 * fcos (angle + dtheta)).
+
+  Definition rotate1 {A} (l : list A) : list A := match l with [] => [] | x :: r => r ++ [x] end.
+
+  Definition from_radial (points : list T) : list seg :=
+    let dtheta := (n2 * pi_) / nofZ (Z.of_nat (length points)) in
+    map (fun ir => radial_edge dtheta (fst ir) (fst (snd ir)) (snd (snd ir)))
+        (combine (seq 0 (length points)) (combine points (rotate1 points))).
+
+  (* LineShape::polygon(sides) = from_radial(vec![1.; sides]) *)
+  Definition polygon (sides : nat) : list seg := from_radial (repeat n1 sides).
+
+  (* f64::to_radians: x * (PI / 180) *)
+  Definition to_radians (x : T) : T := x * (pi_ / nofZ 180).
+
+  (* MolecularShape2::from_trimer(radius, angle, distance) and ::circle() *)
+  Definition mol_trimer (radius angle distance : T) : list disc :=
+    let half := to_radians angle / n2 in
+    [ mkDisc n0 (((- n2) / nofZ 3) * distance * fcos half) n1;
+      mkDisc ((- distance) * fsin half) ((n1 / nofZ 3) * distance * fcos half) radius;
+      mkDisc (distance * fsin half) ((n1 / nofZ 3) * distance * fcos half) radius ].
+  Definition mol_circle : list disc := [ mkDisc n0 n0 n1 ].
+
+  (* LJShape2::from_trimer and ::circle(): sigma = 2 r, epsilon 1, cutoff 3.5 (trimer) / none (circle) *)
+  Definition lj_trimer (cut35 : T) (radius angle distance : T) : ljshape :=
+    let half := to_radians angle / n2 in
+    let x_base := distance * fsin half in
+    let y_base := (n1 / nofZ 3) * distance * fcos half in
+    [ mkLj n0 ((- n2) * y_base) (n2 * n1) n1 (Some cut35);
+      mkLj (- x_base) y_base (n2 * radius) n1 (Some cut35);
+      mkLj x_base y_base (n2 * radius) n1 (Some cut35) ].
+  Definition lj_circle : ljshape := [ mkLj n0 n0 n1 n1 None ].
 End Geom.
 
 Arguments mkTf {_}. Arguments mkSite {_}. Arguments mkCell {_}. Arguments mkSeg {_}. Arguments mkDisc {_}.
